@@ -150,8 +150,10 @@ Theorem C11_dimension_gate_parallel_and_workers :
   (F.lossy_parallelState_getParallelState_gate = ["workers"; "rs"; "topY"; "topNz"] /\
    subset ["topY"; "topU"; "topV"; "topModes"; "topNz"; "topNzDC"; "nextRow"]
           F.lossy_parallelState_encodeFrameParallel_touches = true) /\
+  subset ["workers"; "topY"; "topU"; "topV"; "topModes"; "topNz"; "topNzDC"]
+         F.lossy_parallelState_encodeFrameParallel_reslices = true /\
   F.lossy_importUVWorker_getImportUVWorker_gate = ["rowR"; "tmpRGB"].
-Proof. exact (conj dimension_gate_parallelState dimension_gate_importUVWorker). Qed.
+Proof. exact (conj dimension_gate_parallelState (conj dimension_gate_parallelState_resliced dimension_gate_importUVWorker)). Qed.
 Print Assumptions C11_dimension_gate_parallel_and_workers.
 
 Theorem C11_dimension_gate_lossy_Decoder :
